@@ -22,6 +22,9 @@ def sh(cmd, **kw):
 
 
 def main():
+    import fcntl
+    lock = open("/tmp/nstd-seedtest.lock", "w")
+    fcntl.flock(lock, fcntl.LOCK_EX)          # one seeded run on /repo at a time (waits)
     args = [a for a in sys.argv[1:] if not a.startswith("--")]
     tier = "quick"
     if "--tier" in sys.argv:
